@@ -309,7 +309,9 @@ def h_step(S, B):
                 if i < len(a["prefix"]):
                     ch = a["prefix"][i]
                     like_sensitive = Or(like_sensitive, eq(ch, "%"), eq(ch, "_"), is_ascii_letter(S, ch))
-        S.known("C14-sqlite-prefix-queries-use-LIKE-wildcards-and-fold-ascii-case", like_sensitive)
+        S.known("C14-sqlite-prefix-queries-use-LIKE-wildcards-and-fold-ascii-case", like_sensitive,
+                checks=["sqlite-backend-result-equals-the-memory-backend", "sqlite-backend-state-equals-the-reference-map",
+                        "unaffected-operation-behaves-normally"])
         mem_contents = {n: (u, frozenset(m)) for n, (u, m) in mem.items()}
         S.check("memory-backend-result-equals-the-reference-map", r_mem[0] == r_ref[0] and canon(r_mem[1]) == canon(r_ref[1]))
         S.check("memory-backend-state-equals-the-reference-map", mem_contents == ref)
